@@ -221,6 +221,18 @@ func (f *cbFlags) Capture(values []string) error {
 	return nil
 }
 
+// parseShapeAlt is another ParseTypeWith function for the same type: everything twice as large.
+func parseShapeAlt(lex *lexer.PeekingLexer) (cbShape, error) {
+	sh, err := parseShape(lex)
+	switch v := sh.(type) {
+	case cbCircle:
+		return cbCircle{2 * v.R}, err
+	case cbRect:
+		return cbRect{2 * v.W, 2 * v.H}, err
+	}
+	return sh, err
+}
+
 // cbTemplate is a Capture that re-enters participle: the captured string is itself parsed, with a
 // parser of its own and with tracing on (the usual way interpolated strings are handled).
 type cbTemplate struct{ Parts []string }
@@ -318,6 +330,11 @@ var worldCallbacks = &world{
 			}, "Int"))
 		return mustPH[cbFile](nil, opts...)
 	},
+	altBuild: func(o buildOpts) PH {
+		opts := applyCommon(o, nil, nil)
+		opts = append(opts, participle.Unquote("String"), participle.ParseTypeWith(parseShapeAlt))
+		return mustPH[cbFile](nil, opts...)
+	},
 	docs: []doc{
 		{name: "all", valid: true, text: "dur 15 ms; shape circle 3; flags A b C; addr \"host.example:8080\"; opt 7 h !; opt !; shape rect 04 5;\n"},
 		{name: "unicode", valid: true, text: "flags größe naïve; addr \"höst:1\"; dur 1;\n"},
@@ -331,5 +348,30 @@ var worldCallbacks = &world{
 		{name: "templates", valid: true, text: "tpl \"hi {name} and {other} 2\"; dur 1; tpl \"\"; tpl \"{x}\";"},
 		{name: "bad-template", valid: false, text: "tpl \"hi {name\";"},
 		{name: "plain-user-error", valid: false, foreignErr: true, text: "dur 1; shape hexagon 6; dur 2;"},
+	},
+}
+
+// W-shapes: nothing but a custom production (ParseTypeWith), default lexer, no mappers; the
+// second option set registers another function for the same type.
+type shFile struct {
+	Pos    lexer.Position
+	Shapes []cbShape `( @@ ";" )*`
+}
+
+var worldShapes = &world{
+	name: "shapes", lexerKind: "text/scanner", junk: " ! !", hasCallbacks: true,
+	build: func(o buildOpts) PH {
+		return mustPH[shFile](nil, append(applyCommon(o, nil, nil), participle.ParseTypeWith(parseShape))...)
+	},
+	altBuild: func(o buildOpts) PH {
+		return mustPH[shFile](nil, append(applyCommon(o, nil, nil), participle.ParseTypeWith(parseShapeAlt))...)
+	},
+	docs: []doc{
+		{name: "two", valid: true, text: "circle 3; rect 4 5;"},
+		flatDoc("flat", "", "circle 1; ", ""),
+		{name: "empty", valid: true, text: ""},
+		{name: "bad-number", valid: false, text: "rect 1 x;"},
+		{name: "unknown", valid: false, text: "circle 2; triangle 3;"},
+		{name: "plain-user-error", valid: false, foreignErr: true, text: "circle 1; hexagon 6;"},
 	},
 }
